@@ -11,8 +11,19 @@
         stream of the peer: receiveUnit_unknown_frame (exact: no plaintext, only the pending injections to send, no
         error; the conversation is what it was but for the emptied injection queue, the log gains
         ReceivedMessageUnrecognized), receive_unknown_frame, receive_unknown_fragCtx, with a concrete message.
+  §3  C11/C12: a `StartAuthenticate` that is refused keeps the SMP state (the secret is stored only once the call
+        can no longer be refused): randMPIs_run / smpSecretFor_run / paramLen_run (exact runs of the helpers),
+        startAuthenticateExpect1_refused (only `cantAuthenticate` / `shortRandom` are thrown, conversation and log
+        untouched), startAuthenticateExpect1_short_random_keeps_smp, startAuthenticateExpect1_run_short_random (a
+        failing read makes the call throw), startAuthenticate_run_of_expect1_error,
+        startAuthenticate_short_random_keeps_smp (API level: up to `ensureSMP`), with a conversation in EXPECT2 and
+        a tape of failing reads.
+  §4  C15: an out-of-sequence fragment binds nothing: receiveFragment_out_of_sequence_unbinds (empty context, no
+        error, version / key choice / peer tag as before the call), receiveFragment_in_sequence_binds, with a
+        concrete fresh conversation holding piece 1 of 3 that receives piece 3 of 3.
 -/
 import Proofs.ConvLife
+import Proofs.Fixes3
 namespace Otr
 
 /-! ## 1. C12: a refused `ProvideAuthenticationSecret` keeps the SMP state -/
@@ -157,5 +168,232 @@ example (K : Crypto) :
   have hp : isOTREnabled exMidFragment.conv.policies = true := by decide
   have hg : guessMessageType exUnknownMsg = .unknown := by decide
   exact ⟨hp, hg, _, receive_unknown_frame K exUnknownMsg exMidFragment hp hg, rfl, rfl⟩
+
+/-! ## 3. C11/C12: a `StartAuthenticate` refused for lack of randomness keeps the SMP state -/
+
+/-- `randMPIs k len` attempts all `k` reads, never throws or panics, and touches only the tape and diagnostics -/
+theorem randMPIs_run : ∀ (k len : Nat) (s : MState), ∃ v env' mm',
+    runM (randMPIs k len) s = .ok (.ok v, { s with env := env', mismatch := mm' }) ∧
+      EnvStep s.env env' ∧ v.length = k
+  | 0, _, s => ⟨[], s.env, s.mismatch, rfl, EnvStep.refl _, rfl⟩
+  | k + 1, len, s => by
+    obtain ⟨r, env1, mm1, h1, e1, -⟩ := randRead_run len s
+    obtain ⟨v, env2, mm2, h2, e2, hl⟩ := randMPIs_run k len { s with env := env1, mismatch := mm1 }
+    refine ⟨r.map bytesToNat :: v, env2, mm2, ?_, e1.trans e2, by simp [hl]⟩
+    rw [randMPIs]
+    simp only [runM_bind, h1, bindM_ok, h2, runM_pure]
+
+/-- `smpSecretFor` reads the conversation and computes; without the two long-term keys it panics -/
+theorem smpSecretFor_run (K : Crypto) (ini : Bool) (secret : Bytes) (s : MState) :
+    (∃ v, runM (smpSecretFor K ini secret) s = .ok (.ok v, s)) ∨
+    (∃ p, runM (smpSecretFor K ini secret) s = .panic p) := by
+  unfold smpSecretFor
+  simp only [runM_bind, runM_getc, bindM_ok]
+  cases s.conv.theirKey with
+  | none => right; exact ⟨_, rfl⟩
+  | some tk =>
+    cases s.conv.ourCurrentKey with
+    | none => right; exact ⟨_, rfl⟩
+    | some ok => left; exact ⟨_, rfl⟩
+
+theorem paramLen_run (s : MState) :
+    (∃ v, runM paramLen s = .ok (.ok v, s)) ∨ (∃ p, runM paramLen s = .panic p) := by
+  unfold paramLen
+  simp only [runM_bind, runM_getc, bindM_ok]
+  cases s.conv.version with
+  | none => right; exact ⟨_, rfl⟩
+  | some v => left; exact ⟨_, rfl⟩
+
+/-- **repaired code: a refused `startAuthenticateExpect1` changes nothing in the conversation.**  The call throws
+    only `cantAuthenticate` (not encrypted: the whole state is untouched) or `shortRandom` (one of the four reads
+    failed); in both cases conversation and log are exactly as before — only the randomness tape has advanced.
+    Before the repair the freshly computed secret had already overwritten `smp.secret` of the run in progress. -/
+theorem startAuthenticateExpect1_refused (K : Crypto) (q secret : Bytes) (s s' : MState) (e : Err)
+    (h : runM (startAuthenticateExpect1 K q secret) s = .ok (.error e, s')) :
+    ∃ env' mm', s' = { s with env := env', mismatch := mm' } ∧ EnvStep s.env env' ∧
+      ((e = .cantAuthenticate ∧ s.conv.msgState ≠ .encrypted ∧ s' = s) ∨
+       (e = .shortRandom ∧ s.conv.msgState = .encrypted)) := by
+  unfold startAuthenticateExpect1 at h
+  simp only [runM_bind, runM_getc, bindM_ok, runM_ite, runM_throw, runM_pure] at h
+  by_cases hm : s.conv.msgState = .encrypted
+  · simp only [hm, ne_eq, not_true_eq_false, ↓reduceIte, bindM_ok] at h
+    rcases smpSecretFor_run K true secret s with ⟨sec, hs⟩ | ⟨p, hs⟩
+    · rw [hs] at h
+      simp only [bindM_ok] at h
+      rcases paramLen_run s with ⟨len, hl⟩ | ⟨p, hl⟩
+      · rw [hl] at h
+        simp only [bindM_ok] at h
+        obtain ⟨v, env', mm', hr, he, -⟩ := randMPIs_run 4 len s
+        rw [hr] at h
+        simp only [bindM_ok] at h
+        split at h
+        · simp only [runM_bind, runM_modc, bindM_ok, runM_pure, Res.ok.injEq, Prod.mk.injEq, reduceCtorEq,
+            false_and] at h
+        · simp only [runM_throw, Res.ok.injEq, Prod.mk.injEq, Except.error.injEq] at h
+          exact ⟨env', mm', h.2.symm, he, Or.inr ⟨h.1.symm, hm⟩⟩
+      · rw [hl] at h; cases h
+    · rw [hs] at h; cases h
+  · simp only [ne_eq, hm, not_false_eq_true, ↓reduceIte, bindM_error, Res.ok.injEq, Prod.mk.injEq,
+      Except.error.injEq] at h
+    exact ⟨s.env, s.mismatch, h.2.symm, EnvStep.refl _, Or.inl ⟨h.1.symm, hm, h.2.symm⟩⟩
+
+/-- **C11/C12 (repaired code).**  If the randomness read of `startAuthenticateExpect1` fails — the call throws
+    `shortRandom` — the conversation's SMP component (secret, `s1`, state, question, …) is exactly what it was
+    before the call; so is the rest of the conversation and the log -/
+theorem startAuthenticateExpect1_short_random_keeps_smp (K : Crypto) (q secret : Bytes) (s s' : MState)
+    (h : runM (startAuthenticateExpect1 K q secret) s = .ok (.error .shortRandom, s')) :
+    s'.conv.smp = s.conv.smp ∧ s'.conv = s.conv ∧ s'.events = s.events ∧ EnvStep s.env s'.env := by
+  obtain ⟨env', mm', rfl, he, -⟩ := startAuthenticateExpect1_refused K q secret s s' _ h
+  exact ⟨rfl, rfl, rfl, he⟩
+
+/-- when exactly the randomness fails: one of the four reads of `randMPIs 4 len` returned nothing
+    (`allSome vs = none`; `vs` always has length 4, so this is the only way not to get four numbers) -/
+theorem startAuthenticateExpect1_run_short_random (K : Crypto) (q secret : Bytes) (s s1 : MState)
+    (tk ok : DsaPub) (v : Version) (vs : List (Option Nat))
+    (hm : s.conv.msgState = .encrypted) (htk : s.conv.theirKey = some tk) (hok : s.conv.ourCurrentKey = some ok)
+    (hv : s.conv.version = some v)
+    (hr : runM (randMPIs 4 v.parameterLength) s = .ok (.ok vs, s1)) (hfail : allSome vs = none) :
+    runM (startAuthenticateExpect1 K q secret) s = .ok (.error .shortRandom, s1) := by
+  unfold startAuthenticateExpect1 smpSecretFor paramLen
+  simp only [runM_bind, runM_getc, bindM_ok, runM_ite, runM_throw, runM_pure, hm, ne_eq, not_true_eq_false,
+    ↓reduceIte, htk, hok, hv, hr, hfail]
+
+/-- how `startAuthenticate` reports a refusal of `startAuthenticateExpect1` (question acceptable): the error is
+    passed on — also the abort TLV of the other states is lost — and nothing else happens -/
+theorem startAuthenticate_run_of_expect1_error (K : Crypto) (q secret : Bytes) (s s1 : MState) (e : Err)
+    (hq1 : q.contains 0 = false) (hq2 : q.length ≤ maxSMPQuestionLength)
+    (h : runM (startAuthenticateExpect1 K q secret) { s with conv := ensureSmpConv s.conv } = .ok (.error e, s1)) :
+    runM (startAuthenticate K q secret) s = .ok (.error e, s1) := by
+  have hq2' : ¬ q.length > maxSMPQuestionLength := by omega
+  unfold startAuthenticate
+  simp only [runM_bind, runM_getc, bindM_ok, runM_ite, runM_throw, runM_pure, hq1, Bool.false_eq_true, ↓reduceIte,
+    hq2', runM_modc]
+  cases hst : s.conv.smp.state with
+  | none =>
+    rw [ensureSmpConv_of_none _ hst] at h
+    simp only [Option.isNone_none, ↓reduceIte, bindM_ok, h, bindM_error]
+  | some st =>
+    rw [ensureSmpConv_of_some _ st hst] at h
+    simp only [Option.isNone_some, Bool.false_eq_true, ↓reduceIte, bindM_ok, hst]
+    cases st <;> simp only [runM_bind, h, bindM_error]
+
+/-- **C11/C12 (repaired code), API level.**  `StartAuthenticate` (question acceptable) when the randomness read of
+    `startAuthenticateExpect1` fails: the call throws `shortRandom`, nothing is sent, and the conversation is what
+    it was, except that a nil SMP state has become EXPECT1 (`ensureSMP` runs before): the SMP component is
+    `{ old with state := some (old.state.getD .expect1) }` — identical to the old one whenever a state was set. -/
+theorem startAuthenticate_short_random_keeps_smp (K : Crypto) (q secret : Bytes) (s s1 : MState)
+    (hq1 : q.contains 0 = false) (hq2 : q.length ≤ maxSMPQuestionLength)
+    (h : runM (startAuthenticateExpect1 K q secret) { s with conv := ensureSmpConv s.conv } =
+      .ok (.error .shortRandom, s1)) :
+    runM (startAuthenticate K q secret) s = .ok (.error .shortRandom, s1) ∧
+    s1.conv = ensureSmpConv s.conv ∧
+    s1.conv.smp = { s.conv.smp with state := some (s.conv.smp.state.getD .expect1) } ∧
+    (∀ st, s.conv.smp.state = some st → s1.conv.smp = s.conv.smp ∧ s1.conv = s.conv) ∧
+    (s.conv.smp.state = none → s1.conv.smp = { s.conv.smp with state := some .expect1 }) ∧
+    s1.events = s.events ∧ EnvStep s.env s1.env := by
+  have hrun := startAuthenticate_run_of_expect1_error K q secret s s1 _ hq1 hq2 h
+  obtain ⟨-, hc, hev, hes⟩ := startAuthenticateExpect1_short_random_keeps_smp K q secret _ s1 h
+  have hc : s1.conv = ensureSmpConv s.conv := hc
+  refine ⟨hrun, hc, by rw [hc]; rfl, fun st hst => ?_, fun hst => ?_, hev, hes⟩
+  · rw [hc, ensureSmpConv_of_some _ st hst]; exact ⟨rfl, rfl⟩
+  · rw [hc, ensureSmpConv_of_none _ hst]
+
+/-- a conversation in the middle of an SMP run it has started (EXPECT2, secret 7), with both long-term keys, and
+    a randomness source whose next four reads fail -/
+def exExpect2NoRand : MState :=
+  ⟨{ msgState := .encrypted, version := some .v3, policies := 6, theirKey := some ⟨7, 7, 7, 7⟩,
+     ourCurrentKey := some ⟨5, 5, 5, 5⟩, smp := { state := some .expect2, secret := some 7 } },
+    { rand := [none, none, none, none] }, ["smp:x"], []⟩
+
+/-- the hypotheses are satisfiable, and the run in progress survives the refused call: `startAuthenticateExpect1`
+    and `startAuthenticate` throw `shortRandom`; state EXPECT2 and secret 7 are still there (before the repair the
+    secret had been replaced by the one computed from the new `secret` argument); only the tape is used up -/
+example (K : Crypto) (q secret : Bytes) (hq1 : q.contains 0 = false) (hq2 : q.length ≤ maxSMPQuestionLength) :
+    runM (startAuthenticateExpect1 K q secret) exExpect2NoRand =
+      .ok (.error .shortRandom, { exExpect2NoRand with env := {} }) ∧
+    runM (startAuthenticate K q secret) exExpect2NoRand =
+      .ok (.error .shortRandom, { exExpect2NoRand with env := {} }) ∧
+    ({ exExpect2NoRand with env := {} } : MState).conv.smp = { state := some .expect2, secret := some 7 } := by
+  have h1 : runM (startAuthenticateExpect1 K q secret) exExpect2NoRand =
+      .ok (.error .shortRandom, { exExpect2NoRand with env := {} }) :=
+    startAuthenticateExpect1_run_short_random K q secret exExpect2NoRand _ ⟨7, 7, 7, 7⟩ ⟨5, 5, 5, 5⟩ .v3
+      [none, none, none, none] rfl rfl rfl rfl rfl rfl
+  refine ⟨h1, ?_, rfl⟩
+  exact (startAuthenticate_short_random_keeps_smp K q secret exExpect2NoRand _ hq1 hq2
+    (by rw [ensureSmpConv_of_some _ .expect2 rfl]; exact h1)).1
+
+/-- … and with a nil SMP state only `ensureSMP` shows -/
+example (K : Crypto) (q secret : Bytes) (hq1 : q.contains 0 = false) (hq2 : q.length ≤ maxSMPQuestionLength) :
+    ∃ s1, runM (startAuthenticate K q secret)
+        { exExpect2NoRand with conv := { exExpect2NoRand.conv with smp := {} } } = .ok (.error .shortRandom, s1) ∧
+      s1.conv.smp = { state := some .expect1 } := by
+  have h1 := startAuthenticateExpect1_run_short_random K q secret
+    { exExpect2NoRand with conv := { exExpect2NoRand.conv with smp := { state := some .expect1 } } } _
+    ⟨7, 7, 7, 7⟩ ⟨5, 5, 5, 5⟩ .v3 [none, none, none, none] rfl rfl rfl rfl rfl rfl
+  obtain ⟨hr, -, hs, -⟩ := startAuthenticate_short_random_keeps_smp K q secret
+    { exExpect2NoRand with conv := { exExpect2NoRand.conv with smp := {} } } _ hq1 hq2
+    (by rw [ensureSmpConv_of_none _ rfl]; exact h1)
+  exact ⟨_, hr, hs⟩
+
+/-! ## 4. C15: an out-of-sequence fragment binds nothing -/
+
+/-- **C15 (repaired code).**  A fragment that is addressed to this conversation (`ignore = false`), whose prefix and
+    body parse (`ok1 = true`, piece `ix` of `l`), whose numbering is legal, but that is neither a first piece nor the
+    piece that follows the ones collected in `before` (same total): `receiveFragment` returns the empty context
+    without an error, and — whatever looking at its prefix did (state `s1`) — version, long-term key choice and
+    peer instance tag are those before the call.  Only a first piece or the next piece of the stream being
+    collected binds the conversation. -/
+theorem receiveFragment_out_of_sequence_unbinds (before : FragCtx) (data : Bytes) (s s1 : MState) (body d : Bytes)
+    (ix l : Nat)
+    (hp : runM (parseFragmentPrefix data) s = .ok (.ok (body, false, true), s1))
+    (hpf : parseFragment body = some (d, ix, l))
+    (hlegal : ¬ (ix = 0 ∨ l = 0 ∨ ix > l))
+    (hfirst : ix ≠ 1) (hnext : ¬ ((before.index + 1) % 65536 = ix ∧ before.len = l)) :
+    runM (receiveFragment before data) s = .ok (.ok FragCtx.empty, unbindState s s1) ∧
+    (unbindState s s1).conv.version = s.conv.version ∧
+    (unbindState s s1).conv.ourCurrentKey = s.conv.ourCurrentKey ∧
+    (unbindState s s1).conv.theirTag = s.conv.theirTag := by
+  have ho : fragOutOfSequence before ix l := ⟨hfirst, hnext⟩
+  have hrun : runM (receiveFragment before data) s = .ok (.ok FragCtx.empty, unbindState s s1) := by
+    rw [receiveFragment_run_of_prefix before data s s1 body false true hp]
+    simp only [Bool.false_eq_true, ↓reduceIte, hpf]
+    rw [if_pos (Or.inr ho), fragAccept_outOfSequence before d ix l hlegal ho]
+  have hd : false = true ∨ fragmentDiscarded before true (parseFragment body) := by
+    right; rw [hpf]; exact Or.inr ho
+  obtain ⟨hc, h1, h2, h3⟩ := receiveFragment_discarded_unbinds before data s s1 _ body false true _ hp hd hrun
+  exact ⟨hrun, h1, h2, h3⟩
+
+/-- … while a first piece, or the next piece of the stream being collected, keeps what looking at its prefix
+    committed the conversation to (state `s1`) -/
+theorem receiveFragment_in_sequence_binds (before : FragCtx) (data : Bytes) (s s1 : MState) (body d : Bytes)
+    (ix l : Nat)
+    (hp : runM (parseFragmentPrefix data) s = .ok (.ok (body, false, true), s1))
+    (hpf : parseFragment body = some (d, ix, l))
+    (hlegal : ¬ (ix = 0 ∨ l = 0 ∨ ix > l))
+    (hseq : ix = 1 ∨ ((before.index + 1) % 65536 = ix ∧ before.len = l)) :
+    runM (receiveFragment before data) s = .ok (.ok (fragAccept before d ix l), s1) := by
+  have hno : ¬ ((ix = 0 ∨ l = 0 ∨ ix > l) ∨ fragOutOfSequence before ix l) := by
+    rintro (h | ⟨h1, h2⟩)
+    · exact hlegal h
+    · rcases hseq with h | h
+      · exact h1 h
+      · exact h2 h
+  rw [receiveFragment_run_of_prefix before data s s1 body false true hp]
+  simp only [Bool.false_eq_true, ↓reduceIte, hpf]
+  rw [if_neg hno]
+
+/-- the hypotheses are satisfiable: a fresh conversation that allows v2 and has a long-term key holds piece 1 of 3;
+    piece 3 of 3 arrives.  Looking at its prefix commits to v2 and selects the key; the piece is out of sequence,
+    the context is forgotten, and version and key choice are taken back -/
+example :
+    let s : MState := ⟨{ policies := 6, ourKeys := [⟨1, 1, 1, 1⟩], fragCtx := ⟨[97], 1, 3⟩ }, {}, [], []⟩
+    ∃ s1, runM (parseFragmentPrefix (strBytes "?OTR,00003,00003,x,")) s =
+        .ok (.ok (strBytes "00003,00003,x,", false, true), s1) ∧
+      s1.conv.version = some .v2 ∧ s1.conv.ourCurrentKey = some ⟨1, 1, 1, 1⟩ ∧
+      parseFragment (strBytes "00003,00003,x,") = some ([120], 3, 3) ∧
+      ¬ (3 = 0 ∨ 3 = 0 ∨ 3 > 3) ∧ (3 : Nat) ≠ 1 ∧ ¬ ((s.conv.fragCtx.index + 1) % 65536 = 3 ∧ s.conv.fragCtx.len = 3) ∧
+      ∃ s', runM (receiveFragment s.conv.fragCtx (strBytes "?OTR,00003,00003,x,")) s = .ok (.ok FragCtx.empty, s') ∧
+        s'.conv.version = none ∧ s'.conv.ourCurrentKey = none := by
+  refine ⟨_, rfl, rfl, rfl, by decide, by decide, by decide, by decide, _, rfl, rfl, rfl⟩
 
 end Otr
